@@ -31,7 +31,7 @@ def make_device(kind, variant):
     kind does not set explicitly holds the SAME word (4) on both inverters, whatever their family - equal raw values meet
     different decoders."""
     eq = kind.endswith('=eq')
-    kind = kind.split('=')[0].replace('+ka', '').replace('+loops', '')
+    kind = kind.split('=')[0].replace('+ka', '').replace('+loops', '').replace('+r1', '')
     if kind.startswith('ET'):
         d = ModbusDevice(0xF7, fill=(lambda a: 4) if eq else (lambda a: (a * 31 + 7) % 5000) if variant == 0 else (lambda a: (a * 17 + 1234) % 7000))
         et_device_info(d, serial=b'9010KETT000W0000' if kind == 'ET745' else b'9010KETU000W0000', rated=10000)
@@ -185,7 +185,8 @@ def run_pair(kinds, seqs, ctx, solo=None, transport='udp'):
     for i, d in enumerate(devs):
         d.kern = KProxy(i)
     ports = [502 if (transport == 'tcp' or k.split('+')[0].split('=')[0].endswith('tcp')) else 8899 for k in kinds]
-    invs = [world.FAMILIES[f](HOSTS[i], ports[i], 0x11 if kinds[i].split('+')[0].split('=')[0].endswith('addr') else 0, 1, 0) for i, f in enumerate(fams)]
+    invs = [world.FAMILIES[f](HOSTS[i], ports[i], 0x11 if kinds[i].split('+')[0].split('=')[0].endswith('addr') else 0, 1,
+                              1 if '+r1' in kinds[i] else 0) for i, f in enumerate(fams)]
     for i, k in enumerate(kinds):
         if k.endswith('addr'):
             devs[i].unit = 0x11
